@@ -71,3 +71,25 @@ func MapPages(n int) ([]byte, error) {
 
 // UnmapPages releases memory obtained from MapPages.
 func UnmapPages(b []byte) { syscall.Munmap(b) }
+
+// MapFixed maps n anonymous read-write pages at exactly addr (MAP_FIXED_NOREPLACE: it fails
+// rather than replace an existing mapping). Release with UnmapFixed.
+func MapFixed(addr uintptr, n int) error {
+	const mapFixedNoReplace = 0x100000
+	got, _, e := syscall.Syscall6(syscall.SYS_MMAP, addr, uintptr(n*pageSize), syscall.PROT_READ|syscall.PROT_WRITE,
+		syscall.MAP_PRIVATE|syscall.MAP_ANON|mapFixedNoReplace, ^uintptr(0), 0)
+	if e != 0 {
+		return e
+	}
+	if got != addr {
+		// a kernel that does not know the flag treats addr as a hint
+		syscall.Syscall(syscall.SYS_MUNMAP, got, uintptr(n*pageSize), 0)
+		return fmt.Errorf("mmap placed the pages at %#x, not %#x", got, addr)
+	}
+	return nil
+}
+
+// UnmapFixed releases pages obtained from MapFixed.
+func UnmapFixed(addr uintptr, n int) {
+	syscall.Syscall(syscall.SYS_MUNMAP, addr, uintptr(n*pageSize), 0)
+}
